@@ -12,6 +12,7 @@
 // See the License for the specific language governing permissions and
 // limitations under the License.
 
+#[cfg(not(foyer_verif))]
 use std::{
     mem::offset_of,
     sync::{
@@ -19,6 +20,16 @@ use std::{
         atomic::{AtomicBool, Ordering},
     },
 };
+#[cfg(foyer_verif)]
+use std::{
+    mem::offset_of,
+    sync::{
+        Arc,
+        atomic::{Ordering},
+    },
+};
+#[cfg(foyer_verif)]
+use foyer_common::verif::sync::atomic::{AtomicBool};
 
 use foyer_common::{
     code::{Key, Value},
